@@ -133,4 +133,23 @@ end
 
 def Src.inlineCleanB (s : Src) : Bool := allInlineCleanB s.exprs
 
+def allBeforeEmpty : List Expr → Bool
+  | [] => true
+  | x :: r => x.before.isEmpty && allBeforeEmpty r
+
+mutual
+/-- THE EXCLUSION of the spacing theorem, in its final form: in every container written on one
+    line, no item has leading trivia (i.e. no comment stands in front of an item) -/
+def Expr.beforeFlatB : Expr → Bool
+  | .leaf .. => true
+  | .list v ml _ _ _ => (ml || allBeforeEmpty v) && allBeforeFlatB v
+  | .set v ml _ _ _ _ => (ml || allBeforeEmpty v) && allBeforeFlatB v
+  | .binding _ v _ _ _ => v.beforeFlatB
+def allBeforeFlatB : List Expr → Bool
+  | [] => true
+  | e :: rest => e.beforeFlatB && allBeforeFlatB rest
+end
+
+def Src.beforeFlatB (s : Src) : Bool := allBeforeFlatB s.exprs
+
 end Nima.Frag
